@@ -1202,6 +1202,13 @@ class RTCSctpTransport(AsyncIOEventEmitter):
                 chunk.cumulative_tsn
             )
 
+        # the fragments of abandoned messages are gone, deliver what they blocked
+        for stream_id, stream_seq in chunk.streams:
+            inbound_stream = self._get_inbound_stream(stream_id)
+            for message in inbound_stream.pop_messages():
+                self._advertised_rwnd += len(message[2])
+                await self._receive(*message)
+
     async def _receive_sack_chunk(self, chunk: SackChunk) -> None:
         """
         Handle a SACK chunk.
